@@ -244,6 +244,14 @@ func cmdCheck(args []string) int {
 			eng.Forced = forced
 			eng.SymMapOrder = strings.HasPrefix(h.Name(), "H_C19_")
 			eng.S.Abstract = !isIdeal(h.Name()) && !strings.HasSuffix(h.Name(), "_X")
+			if isIdeal(h.Name()) {
+				// ideal-Q queries are nonlinear real arithmetic: z3's nlsat tactic decides them in
+				// milliseconds where the incremental core answers unknown (measured on C12.step.claim: 0.3 s vs 47 s + unknowns)
+				eng.S.CheckCmd = "(check-sat-using (or-else (try-for qfnra-nlsat $T) smt))"
+				if c := os.Getenv("SYMGO_IDEAL_CHECK"); c != "" {
+					eng.S.CheckCmd = c
+				}
+			}
 			eng.SetKnown(known)
 			tr.Eng = eng
 			var progress func(string)
